@@ -246,7 +246,7 @@ func (r *replayer) closePool() error {
 		s.holding = false
 		s.gate.permit <- struct{}{}
 	}
-	deadline := time.After(stepTimeout)
+	deadline := time.Now().Add(stepTimeout)
 	for {
 		select {
 		case <-closed:
@@ -257,11 +257,15 @@ func (r *replayer) closePool() error {
 			}
 			r.st = "closed"
 			return nil
-		case <-s.gate.arrive:
-			s.gate.permit <- struct{}{}
-		case <-deadline:
+		default:
+		}
+		if settle(stepTimeout) && len(s.gate.permit) == 0 {
+			s.gate.permit <- struct{}{} // the writer drains the channel: one grant per transaction
+		}
+		if time.Now().After(deadline) {
 			return errors.New("Close did not return")
 		}
+		time.Sleep(20 * time.Microsecond)
 	}
 }
 
